@@ -490,7 +490,7 @@ func GenFamilyExpr(r *Rng, fam string) *Expr {
 // usual "small input" thresholds).
 func GenMediumDoc(r *Rng, tag string) string {
 	g := &DocGen{r: r, tag: tag, poison: 0, spare: 20, big: true, medium: true}
-	g.latePoison = r.P(1, 4)
+	g.latePoison = r.P(1, 4) || strings.HasSuffix(tag, "!")
 	return g.val(tDoc, 0)
 }
 
@@ -651,7 +651,7 @@ func intLit(r *Rng) *Expr {
 }
 
 func strLit(r *Rng) *Expr {
-	if r.P(1, 25) {
+	if r.P(1, 14) {
 		// a raw string whose body is byte-identical to the body of a quoted
 		// identifier used elsewhere: raw strings keep the backslash
 		return &Expr{K: KStr, S: pick(r, []string{`t\tb`, `q\"t`, `\u00e9`, `a\nb`, `it\'s  here`, `it\'s here`, `a  b`, "a\tb", "a b"}), F: []bool{true}}
